@@ -83,8 +83,10 @@ class Cache:
             data = np.ascontiguousarray(arg).reshape(-1).view(np.uint8)
             self._update_hash_framed(
                 f"ndarray {arg.dtype.str} {arg.shape}", data)
-        elif isinstance(arg, list):
-            self._update_hash_framed("list", str(len(arg)).encode('utf-8'))
+        elif isinstance(arg, (list, tuple)):
+            # (tuples may hold arrays as well, e.g. bin edges)
+            self._update_hash_framed(type(arg).__name__,
+                                     str(len(arg)).encode('utf-8'))
             [self._update_hash(a) for a in arg]
         else:
             self._update_hash_framed(type(arg).__name__,
